@@ -837,6 +837,53 @@ def oneofAfter (env : Env) (cls : String) (kw : Kvs) (assigns : List (String × 
         | .ok none => .ok cnull
         | .ok (some k) => .ok (cstr k)
 
+/-! ## attribute assignment on an existing configuration object (`obj.f = v`)
+
+attrs (`@define`) runs, on assignment, the converters and validators of THAT field and then stores
+the value; class-level checks (`oneof`) are not re-run.  The validator receives the new value as its
+`value` argument — but two validators of /repo ignore that argument and read `self.<field>`, which
+at that moment still holds the OLD value (`validate_scale`, `validate_min_lr`): `assignChecksOld`. -/
+
+def ruleOf (cls f : String) : Option Rule :=
+  match (fieldRules cls).filter (fun fr => fr.1 == f) with
+  | fr :: _ => some fr.2
+  | [] => none
+
+/-- fields whose validator looks at `self.<field>` instead of the value being assigned (as in /repo) -/
+def assignChecksOld (cls f : String) : Bool :=
+  (cls == "PreprocessingConfig" && f == "scale") || (cls == "ReduceLROnPlateauConfig" && f == "min_lr")
+
+/-- verdict of the field validator when `v` is assigned over `old` -/
+def assignVerdict (checksOld : Bool) (r : Option Rule) (old v : Cfg) : Except String Unit :=
+  match r with
+  | none => .ok ()
+  | some r => r.check (if checksOld then old else v)
+
+/-- `obj.f = v` for an object of class `cls` whose fields are `kvs`: the new fields, or the exception
+(in which case the object is unchanged) -/
+def assignField (checksOld : Bool) (cls : String) (kvs : Kvs) (f : String) (v : Cfg) : Except String Kvs :=
+  match lookup f kvs with
+  | none => .error "AttributeError"
+  | some old =>
+    match assignVerdict checksOld (ruleOf cls f) old v with
+    | .error e => .error e
+    | .ok () =>
+      if cls == "ModelConfig" && f == "pre_trained_weights" then
+        match preTrainedOk (setKey f v kvs) with
+        | .error e => .error e
+        | .ok () => .ok (setKey f v kvs)
+      else .ok (setKey f v kvs)
+
+/-- construct, assign one field, report the field's value afterwards (as /repo does it) -/
+def assignAfter (env : Env) (cls : String) (kw : Kvs) (f : String) (v : Cfg) : Except String Cfg :=
+  match mk env cls kw with
+  | .error e => .error e
+  | .ok (.leaf _) => .error "TypeError"
+  | .ok (.node kvs) =>
+    match assignField (assignChecksOld cls f) cls kvs f v with
+    | .error e => .error e
+    | .ok kvs' => .ok ((lookup f kvs').getD cnull)
+
 /-! ## histories of builder calls
 
 The builders are functions of their arguments (and of the class defaults) only.  A *history* is a
